@@ -3,7 +3,7 @@ import vlib, smcheck, mirrorcheck
 
 META = {
     "level": "model_checking",
-    "text": "StateMachine.tla models the round lifecycle event by event with the action store written between signing and emission and a crash after any event followed by a restart on the same stores; TLC checks SignOnce (at most one signature per kind, height and round over the whole history, restarts included) and exports every counterexample witness; witnesses and simulated behaviours are replayed on a real tmstate.StateMachine with a recording Signer and a recording ActionStore: the harness counts real Signer calls per (kind, height, round) across restarts and checks for every action received on the mirror channel that its action-store record already exists. Generation: witnesses of design counterexamples, simulation, and an edge cover (one behaviour per reachable (state, event) pair, including events the model ignores such as a duplicate strategy answer); free run after a divergence; predicate failures must reproduce on a second replay.",
+    "text": "StateMachine.tla models the round lifecycle event by event with the action store written between signing and emission and a crash after any event followed by a restart on the same stores; TLC checks SignOnce (at most one signature per kind, height and round over the whole history, restarts included) and exports every counterexample witness; witnesses and simulated behaviours are replayed on a real tmstate.StateMachine with a recording Signer and a recording ActionStore: the harness counts real Signer calls per (kind, height, round) across restarts and checks for every action received on the mirror channel that its action-store record already exists, and that no second, DIFFERENT proposal or vote for a round is ever released (ReleasedOnce: holds on the unchanged tree even where the known re-sign-after-restart finding applies, because the action store refuses the duplicate). Generation: witnesses of design counterexamples, simulation, and an edge cover (one behaviour per reachable (state, event) pair, including events the model ignores such as a duplicate strategy answer); free run after a divergence; predicate failures must reproduce on a second replay.",
     "note": "N=4 equal powers, heights 1..3, rounds 0..2, strategy answers chosen by the behaviour (any proposed hash or nil, late or never). Crash = cancel the state machine and start a new one on the same store objects. Trusted: TLC, the recording wrappers.",
     "technique": "TLA+ spec (StateMachine.tla) + TLC exhaustive bounded check with crash/restart + replay of counterexample witnesses and simulated behaviours on the real state machine with recording signer/action store",
 }
